@@ -68,6 +68,34 @@ class Dag:
             if self.M > 1 else z3.IntVal(0)
 
 
+_REPOS = {}
+_GIT_ENV = dict(GIT_AUTHOR_NAME="v", GIT_AUTHOR_EMAIL="v@v", GIT_COMMITTER_NAME="v", GIT_COMMITTER_EMAIL="v@v",
+                GIT_AUTHOR_DATE="2020-01-01T00:00:00", GIT_COMMITTER_DATE="2020-01-01T00:00:00", HOME="/nonexistent",
+                GIT_CONFIG_NOSYSTEM="1", PATH=os.environ.get("PATH", "/usr/bin:/bin"))
+
+
+def real_repo(M, par):
+    """A real repository with the given parent relation (cached per process)."""
+    key = (M, tuple(sorted(par.items())))
+    if key in _REPOS and os.path.isdir(_REPOS[key][0]):
+        return _REPOS[key]
+    d = tempfile.mkdtemp(prefix="verif-git-", dir=hrun.SCRATCH_BASE)
+
+    def git(*a):
+        return subprocess.run(["git"] + list(a), cwd=d, env=_GIT_ENV, capture_output=True, text=True).stdout.strip()
+    git("init", "-q")
+    tree = git("write-tree")
+    hashes = []
+    for i in range(M):
+        args = ["commit-tree", tree, "-m", "c%d" % i]
+        for j in range(i):
+            if par[(i, j)]:
+                args += ["-p", hashes[j]]
+        hashes.append(git(*args))
+    _REPOS[key] = (d, hashes)
+    return _REPOS[key]
+
+
 class GitSched(graphs.SymSched):
     def __init__(self, g, mode, dag, head, dirty):
         super().__init__(g, all_ok=True, on_spawn=graphs.output_writer)
@@ -97,20 +125,48 @@ class GitSched(graphs.SymSched):
             return "", 128
         if argv[:2] == ["diff-index", "--quiet"]:
             return "", (1 if self.dirty else 0)
-        if argv[:2] == ["merge-base", "--is-ancestor"]:
+        if argv[:2] == ["merge-base", "--is-ancestor"] and len(argv) == 4:
             a, d = self.idx(argv[2]), self.idx(argv[3])
             if a is None or d is None:
                 return "", 128
             self.asked.append(("anc", a, d))
             return "", (0 if bool(g.lift(self.dag.reach(d, a))) else 1)
-        if argv[:2] == ["rev-list", "--count"]:
+        if argv[:2] == ["rev-list", "--count"] and len(argv) == 4 and argv[3].startswith("^") and not argv[2].startswith("-"):
             s, a = self.idx(argv[2]), self.idx(argv[3].lstrip("^"))
             if s is None or a is None:
                 return "", 128
             self.asked.append(("dist", s, a))
             n = g.concretize(self.dag.dist(s, a))
             return "%d\n" % n, 0
-        return "", 129
+        return self.ask_real_git(kernel, argv)
+
+    def ask_real_git(self, kernel, argv):
+        """A command line the emulator does not model: fix the whole DAG (forking
+        over the parent relation), build it with /usr/bin/git and ask that."""
+        g = self.g
+        par = {k: bool(g.lift(v)) for k, v in self.dag.p.items()}
+        kernel.bypass = True
+        try:
+            d, hashes = real_repo(self.dag.M, par)
+        finally:
+            kernel.bypass = False
+        fwd = {H(i): hashes[i] for i in range(self.dag.M)}
+        fwd["HEAD"] = hashes[self.head]
+        real_argv = []
+        for a in argv:
+            for fake, real in fwd.items():
+                a = a.replace(fake, real)
+            real_argv.append(a)
+        kernel.bypass = True
+        try:
+            p = subprocess.run(["git"] + real_argv, cwd=d, env=_GIT_ENV, capture_output=True, text=True)
+        finally:
+            kernel.bypass = False
+        out = p.stdout
+        for i, h in enumerate(hashes):
+            out = out.replace(h, H(i))
+        self.asked.append(("real-git", tuple(argv), p.returncode))
+        return out, p.returncode
 
 
 def make(M, K, flags=FLAGS, modes=GM):
